@@ -11,11 +11,11 @@ TECH = "bounded exhaustive exploration of the implementation against a reference
 CHECKS = {
     "C05": (
         "model_checking",
-        "explicit-state history search over the real State (all operation sequences up to a depth, pruned on canonical state) + reference model",
-        "Every sequence of append/kill/compactify/assignment operations up to the depth bound is executed on the real State "
-        "(and, in a reduced alphabet, through the real sparse Output.write and a documented-format reader); after every "
-        "operation pids, instance arrays, particle arrays and npid equal a list-based reference model. Exhaustive below the "
-        "bound, silent about longer histories.",
+        "explicit-state history search over the real State: every operation sequence up to a depth replayed from scratch, deeper with cloning and pruning on canonical state; reference model compared after every operation",
+        "Every sequence over a 16-operation alphabet (appends scalar/array/broadcast/empty/with defaults, kills, compactify, item assignment incl. aliasing, "
+        "in-place updates, particle-variable updates) up to depth 4/5 is replayed from scratch on a fresh State (depth 7/9 over the 5-operation core), deeper "
+        "(5/7, core 9/11) incrementally with pruning on (canonical state, remaining depth), and in a reduced alphabet through the real sparse Output.write and "
+        "a documented-format reader; after every operation pids, instance arrays, particle arrays and npid equal a list-based reference model.",
         "Operation arguments are functions of the current state (needed for sound pruning); dtype zoo int/float/bool/M8[s]; numpy trusted.",
         "DESIGN.md §2 C05",
     ),
@@ -31,8 +31,9 @@ CHECKS = {
     "C07": (
         "model_checking",
         "exhaustive configuration lattice (Nsteps x period x numrec x layout x direction x ...) through the real main(), schedule oracle + split-vs-unsplit differential",
-        "Every (Nsteps<=9/13, period, numrec, layout, particle variables, direction, file-name prototype, duration exact or not) is a complete run of "
-        "main(); record times, file names, records per file, readability and the concatenation differential are compared with integer arithmetic.",
+        "Every (Nsteps<=9/13, period, numrec, layout, particle variables, direction, duration exact or not, first release at or after the start) is a complete "
+        "run of main(), with six file-name prototypes in one slice of the lattice; record times, file names, records per file, readability, particle "
+        "variables and the concatenation differential are compared with integer arithmetic.",
         "Analytic grid/forcing plug-ins (the property does not anchor ROMS); output period a multiple of dt.",
         "DESIGN.md §2 C07",
     ),
@@ -148,7 +149,8 @@ CHECKS = {
         "exhaustive lattice of frame layouts x file compositions x release tables x schemes: paired Model runs (reversed vs time-mirrored sign-flipped forward), record-by-record differential",
         "For every (run length, frame layout incl. spacing = dt and irregular spacing, composition into files, release table discrete/continuous with 2-3 release "
         "times, scheme, output period): the reversed run and the forward run in the mirrored, sign-flipped flow give the same pids at the same positions "
-        "(1e-12) in every record; the reversed clock and time coordinate read S - k*dt; each release appears at its stated time.",
+        "(1e-12) in every record; the reversed clock and time coordinate read S - k*dt; each release appears at its stated time; a slice repeats the "
+        "differential with frames, release times and output period off the step grid.",
         "Scalar forcing under reversal excluded; diffusion off.",
         "DESIGN.md §2 C10",
     ),
@@ -183,8 +185,9 @@ CHECKS = {
     "C20": (
         "fault_enumeration",
         "exhaustive single-fault injection: every fault of the list x every base scenario through main(), each base first run fault-free",
-        "8 base scenarios (forward/reversed x single/multi-file forcing x discrete/continuous release) x 33 single faults: the run must end with an error, no "
-        "output record may exist and the recording IBM must never have been called.",
+        "8 base scenarios (forward/reversed x single/multi-file forcing x discrete/continuous release) x 44 single faults through main(), and the same faults "
+        "through `python -m ladim` (one base in quick, all in thorough) reading the process exit status: the run must end with an error, no output record "
+        "may exist and the recording IBM must never have been called.",
         "One fault at a time; the error kind is recorded, not prescribed.",
         "DESIGN.md §2 C20",
     ),
